@@ -168,6 +168,80 @@ def _check_prefix_dead_via_table(prog, fn, need, site) -> bool:
     return False
 
 
+def _check_prefix_dead_via_kind_dict(prog, fn, need) -> bool:
+    """Same argument when the handler is selected from a dictionary keyed by token kind:
+    `checkers = {**dict.fromkeys(KINDS, self.handler), KIND: self.other, ...}` and
+    `checker = checkers.get(context.peek_token(i).type)` / `checkers[...]`, then `checker(context, i)`: the kinds that map to the
+    handler must be disjoint from the kinds the dead site needs, and the index looked up must be the one passed on."""
+    import ast
+    from .fold import fold_in_fn
+    from .model import text, walk_fn
+    if fn.cls is None:
+        return False
+    params = [p for p in fn.params if p not in ("self", "cls")]
+    for caller in fn.cls.methods.values():
+        for d in walk_fn(caller.node):
+            if not isinstance(d, ast.Dict):
+                continue
+            kinds, refers = set(), False
+            for k, v in zip(d.keys, d.values):
+                def is_handler(e):
+                    return isinstance(e, ast.Attribute) and e.attr == fn.name and isinstance(e.value, ast.Name) and e.value.id in ("self", "cls")
+                if k is None:
+                    if isinstance(v, ast.Call) and text(v.func) == "dict.fromkeys" and len(v.args) == 2 and is_handler(v.args[1]):
+                        ks = fold_in_fn(v.args[0], caller, default=None)
+                        if not isinstance(ks, (list, tuple, set, frozenset, str)):
+                            return False
+                        kinds |= set(ks)
+                        refers = True
+                elif is_handler(v):
+                    kv = fold_in_fn(k, caller, default=None)
+                    if not isinstance(kv, str):
+                        return False
+                    kinds.add(kv)
+                    refers = True
+            if not refers:
+                continue
+            # the dictionary's name, the look-ups on it keyed by `<ctx>.peek_token(I).type`, and the calls of their results
+            par = getattr(d, "_sa_parent", None)
+            if not (isinstance(par, ast.Assign) and len(par.targets) == 1 and isinstance(par.targets[0], ast.Name)):
+                return False
+            dname = par.targets[0].id
+            ok_calls = 0
+            for n in walk_fn(caller.node):
+                look = None
+                if isinstance(n, ast.Call) and isinstance(n.func, ast.Attribute) and n.func.attr == "get" and text(n.func.value) == dname and n.args:
+                    look = n.args[0]
+                elif isinstance(n, ast.Subscript) and text(n.value) == dname:
+                    look = n.slice
+                if look is None:
+                    continue
+                if not (isinstance(look, ast.Attribute) and look.attr == "type" and isinstance(look.value, ast.Call)
+                        and text(look.value.func).endswith("peek_token") and len(look.value.args) == 1):
+                    return False
+                idx_text = text(look.value.args[0])
+                holder = getattr(n, "_sa_parent", None)
+                names = set()
+                if isinstance(holder, ast.NamedExpr):
+                    names.add(holder.target.id)
+                elif isinstance(holder, ast.Assign) and len(holder.targets) == 1 and isinstance(holder.targets[0], ast.Name):
+                    names.add(holder.targets[0].id)
+                direct = holder if isinstance(holder, ast.Call) and holder.func is n else None
+                calls = [c for c in walk_fn(caller.node) if isinstance(c, ast.Call) and isinstance(c.func, ast.Name) and c.func.id in names]
+                if direct is not None:
+                    calls.append(direct)
+                for c in calls:
+                    for f in need:
+                        pname = f.subject[1]
+                        if pname not in params or params.index(pname) >= len(c.args) or text(c.args[params.index(pname)]) != idx_text:
+                            return False
+                        if kinds & set(f.items):
+                            return False
+                    ok_calls += 1
+            return ok_calls > 0
+    return False
+
+
 def _check_prefix_dead() -> bool:
     """new_error("") in CheckOperatorsSpacing.check_prefix executes only if check_token(pos, K1) is true for K1 = {TAB, SPACE};
     at its only call site the same index has just been tested `check_token(i, K2) is True` with K2 (p_operators) disjoint
@@ -187,9 +261,9 @@ def _check_prefix_dead() -> bool:
         return False
     sites = [c for c in callgraph(prog).sites.get(fn.key, []) if isinstance(c.node, ast.Call)]
     if len(sites) == 1 and getattr(sites[0], "how", "") == "dynamic:table":
-        return _check_prefix_dead_via_table(prog, fn, need, sites[0])
+        return _check_prefix_dead_via_table(prog, fn, need, sites[0]) or _check_prefix_dead_via_kind_dict(prog, fn, need)
     if len(sites) != 1:
-        return False
+        return _check_prefix_dead_via_kind_dict(prog, fn, need)
     call, caller = sites[0].node, sites[0].caller
     params = [p for p in fn.params if p not in ("self", "cls")]
     sym = Sym(prog, caller)
